@@ -20,7 +20,9 @@ EXPLANATION = (
     "R1: the sponge parameter can influence every verifier's outcome (a proof is bound to the transcript it was made "
     "for); R1all: a variable that holds a squeezed challenge on some path holds one at every use (a combiner "
     "initialised with a constant and only later overwritten by a challenge leaves the first element unbound); R1ret: a "
-    "helper that is handed the sponge and returns transcript-derived values does so on every non-refusing return; R7c: "
+    "helper that is handed the sponge and returns transcript-derived values does so on every non-refusing return; R5w: "
+    "the vector of polynomials a batch prover hands to `open` is filled under an innermost walk over a container derived "
+    "from the query set (the group's label set, whose order the verifier uses), not over the caller's list; R7c: "
     "every absorb / squeeze acts on (a reborrow of) the sponge the entry point was handed, never on a copy. Equality of sponge *states* needs the sponge's semantics and is not decided; longer histories follow by "
     "composition.")
 RULE = ("instances = 18 (scheme, operation) pairs x tree equality + verifier anchors x sponge liveness; floor: at least "
@@ -114,6 +116,24 @@ def run(rep, ctx, tier):
             else:
                 detail = "prover schedule [%s] differs from verifier schedule [%s]" % (" ; ".join(R7.fmt(ps))[:600], " ; ".join(R7.fmt(vs))[:600])
             rep.add("R7", key, ok, detail, vb.span, nontrivial=(pe.ops + ve.ops) > 0)
+    # R5w: the polynomials of one query group are handed to `open` in the order of the group's label set (the order the
+    # verifier uses), not in the order of the caller's list
+    from ..rules import visited as R5V
+    n_fills = 0
+    seen_default = False
+    for sk, info in T.SCHEMES.items():
+        b = f.find1("batch_open", self_adt=info["adt"], trait=T.PC)
+        src = "own"
+        if b is None:
+            if seen_default:
+                continue
+            b, src, seen_default = f.find1("batch_open", in_trait=T.PC), "default", True
+        if b is None:
+            rep.add("R5w", "%s.batch_open:anchor" % sk, False, "batch_open not found (fail closed)", None)
+            continue
+        n_fills += R5V.run_order(rep, ctx, ("%s.batch_open" % sk) if src == "own" else "default.batch_open", b,
+                                 info["adt"] if src == "own" else None, T.ROLES["batch_open"]["query_set"], T.ROLES["open"]["polys"] - 1, "R5w")
+    rep.count("R5w fills", n_fills)
     rep.count("sponge_operations_classified", total_ops)
     if total_ops < 30:
         rep.add("R7", "floor", False, "only %d sponge operations were found in all schedules (floor 30)" % total_ops, None)
